@@ -119,7 +119,8 @@ type Ops struct {
 	byKey        map[planKey]*go9p.SrvReq  // the last request seen for (conn, tag)
 	flushGates   map[planKey]chan struct{} // Flush(conn, tag) blocks until the channel is closed
 	closedGates  map[int]chan struct{}     // ConnClosed(conn id) blocks until the channel is closed
-	defPlans     map[int]*Plan            // one-shot catch-all plan per connection
+	pendingAns   map[planKey]func()        // deferred answers of NoAnswer requests
+	defPlans     map[int]*Plan             // one-shot catch-all plan per connection
 	cbGates      map[string]chan struct{}  // one-shot gates of the other callbacks, by name
 	destroyGates map[int64]chan struct{}   // FidDestroy of the fid object with that token blocks until the channel is closed
 	Dotu         bool
@@ -202,6 +203,21 @@ func (o *Ops) SetDefaultPlan(conn int, p *Plan) {
 		o.defPlans[conn] = p
 	}
 	o.mu.Unlock()
+}
+
+// AnswerPending gives the answer of a request whose callback returned without answering (plan NoAnswer), now, on the
+// caller's goroutine: an implementation that completes requests later, from a goroutine of its own.
+func (o *Ops) AnswerPending(conn int, tag uint16) bool {
+	o.mu.Lock()
+	f := o.pendingAns[planKey{conn, tag}]
+	delete(o.pendingAns, planKey{conn, tag})
+	delete(o.pending, planKey{conn, tag})
+	o.mu.Unlock()
+	if f == nil {
+		return false
+	}
+	f()
+	return true
 }
 
 // SetAuthPlan registers the plan used by AuthInit/AuthCheck for this aname.
@@ -389,6 +405,21 @@ func (o *Ops) finish(req *go9p.SrvReq, conn int, p *Plan, op string, answer func
 	if p.NoAnswer {
 		o.mu.Lock()
 		o.pending[planKey{conn, tag}] = req
+		if o.pendingAns == nil {
+			o.pendingAns = map[planKey]func(){}
+		}
+		o.pendingAns[planKey{conn, tag}] = func() {
+			o.Log.Add(Event{Kind: "answer", Conn: conn, Tag: tag, Op: op, Info: "deferred"})
+			if p.Err != "" {
+				req.RespondError(&go9p.Error{Err: p.Err, Errornum: p.Errnum})
+			} else {
+				answer()
+			}
+			if p.Twice {
+				req.Respond()
+			}
+			o.Log.Add(Event{Kind: "answered", Conn: conn, Tag: tag, Op: op})
+		}
 		o.mu.Unlock()
 		o.Log.Add(Event{Kind: "exit", Conn: conn, Tag: tag, Op: op, Info: "noanswer"})
 		return
